@@ -202,7 +202,7 @@ main(int argc, char **argv)
 		long steps = 0, idle = 0;
 		int hs_done = 0, closing = 0, done = 0;
 		uint64_t sched = 0;
-		static const size_t fc[5] = { 512, 1024, 2048, 4096, 16384 };
+		static const size_t fc[6] = { 512, 1024, 2048, 4096, 16384, 8192 };   /* 8192: no max_fragment_length code, the endpoint asks for 4096 */
 
 		if (only >= 0 && idx != only) continue;
 		vf_rng_init(&r, (uint64_t)seed, (uint64_t)idx + 1000003);
@@ -215,7 +215,7 @@ main(int argc, char **argv)
 		/* OpenSSL sends records up to 16384 bytes unless MFL is negotiated (it honours the
 		   BearSSL client's request when it is the server). As a BearSSL *server* we need
 		   full-size input; as a client any class works. */
-		cls = b_is_client ? (int)vf_below(&r, 5) : 4;
+		cls = b_is_client ? (int)vf_below(&r, 6) : 4;
 		if (cls == 4 && vf_below(&r, 3) != 0 && b_is_client) cls = (int)vf_below(&r, 4);
 		frag = fc[cls];
 		tp_cfg_default(&cfg, b_is_client ? 0 : 1);
@@ -451,7 +451,8 @@ main(int argc, char **argv)
 			ev = find_ext(mm.m.rm.last_ch, mm.m.rm.last_ch_len, 0, 1, &vl); if (ev && vl == 1) ch_code = ev[0];
 			ev = find_ext(mm.m.rm.last_sh, mm.m.rm.last_sh_len, 1, 1, &vl); if (ev && vl == 1) sh_code = ev[0];
 			vf_stat("ossl_mfl_sessions", 1);
-			if (layout != TP_LAYOUT_SPLIT1 && ((frag < 16384) != (ch_code != 0) || (ch_code != 0 && ((size_t)256 << ch_code) != frag))) {
+			/* an 8192-class buffer asks for 4096: the extension has no code for 8192 */
+			if (layout != TP_LAYOUT_SPLIT1 && ((frag < 16384) != (ch_code != 0) || (ch_code != 0 && ((size_t)256 << ch_code) != (frag == 8192 ? 4096 : frag)))) {
 				TP_VIOL("interop:mfl-client-request-wrong", "client buffers and the max_fragment_length it requested from OpenSSL do not match");
 			}
 			if ((br_ssl_engine_get_mfln_negotiated(b.eng) != 0) != (sh_code != 0)) {
